@@ -75,6 +75,7 @@ TARGETS = [
       extra_filters=["is_space"]),
     T("QPDFTokenizer.cc", "Tokenizer::isDelimiter", "func", "_ZN4qpdf9Tokenizer11isDelimiterEc", "Tokenizer_isDelimiter", "C03",
       extra_filters=["is_delimiter"]),
+    T("QPDF_String.cc", "is_iso_latin1_printable", "func", "_ZL23is_iso_latin1_printablec", "is_iso_latin1_printable", "C03"),
     # ---- C15: filters
     T("Pl_PNGFilter.cc", "abs_diff", "func", "_ZL8abs_diffii", "abs_diff", "C15", dom=[(-2 ** 30, 2 ** 30 - 1)] * 2),   # no signed overflow
     T("Pl_PNGFilter.cc", "PaethPredictor", "func", "_ZN12Pl_PNGFilter14PaethPredictorEiii", "PaethPredictor", "C15",
